@@ -5,7 +5,7 @@
     in order of first appearance (sentinels 0 and 1, then 2, 3, ... ; a node that leaves the chain
     loses its name), which is exactly how the model allocates, so the two snapshots are comparable:
     node identity under update, promotion and recycling is part of what is compared. *)
-From VF Require Import Base Enc Heap.
+From VF Require Import Base Enc Heap HeapIterDef.
 From Coq Require Import List Arith.
 Import ListNotations.
 Open Scope Z_scope.
@@ -68,6 +68,11 @@ Definition hstep_enc (s : hstate) (o : list Z) : option (hstate * list Z * list 
     | [8] => Some (s, [zn (length (hidx (hs_q s)))], [0])       (* len = map.len() *)
     | [9] => Some (s, [zn (hcap (hs_q s))], [0])
     | [10] => Some (s, [zb (Nat.eqb (length (hidx (hs_q s))) 0)], [0])
+    | [25] =>                                                   (* x = x.clone() *)
+      match h_clone_replace (hs_h s) (hs_q s) with
+      | HOk (h1, q1) => Some (mkHstate h1 q1, [], [0])
+      | HErr e => Some (s, [-2000; herr_code e], [0])
+      end
     | _ => None
     end
   | Some op =>
